@@ -11,6 +11,7 @@ import (
 	"github.com/zishang520/engine.io/v2/config"
 	"github.com/zishang520/engine.io/v2/types"
 
+	"verifh/fakenet"
 	"verifh/refcodec"
 	"verifh/rep"
 	"verifh/rig"
@@ -721,6 +722,22 @@ func TestC07(t *testing.T) {
 			r.Violation(key, msg, map[string]any{"lane": "silent polling client, buffered packet, Close(false): heartbeat deadline must still close the session", "rev": rev, "PI": PI.String(), "PT": PT.String()})
 		}
 	}
+	for i := 0; i < r.N(12, 600); i++ {
+		for _, tr := range []string{"websocket", "webtransport"} {
+			rev := 4
+			if tr == "websocket" && i%3 == 0 {
+				rev = 3
+			}
+			PI := []time.Duration{50 * time.Millisecond, time.Second, 25 * time.Second}[i%3]
+			PT := []time.Duration{40 * time.Millisecond, 2 * time.Second, 20 * time.Second}[(i/3)%3]
+			key, msg := runC07Stalled(rev, tr, PI, PT, r)
+			r.Case(fmt.Sprintf("stalled-peer/v%d/%s/%v/%v", rev, tr, PI, PT), true)
+			r.Obs("stalled_peers_checked", 1)
+			if key != "" {
+				r.Violation(key, msg, map[string]any{"lane": "client stopped reading, server writer blocked on a full connection", "rev": rev, "transport": tr, "PI": PI.String(), "PT": PT.String()})
+			}
+		}
+	}
 	for i := 0; i < r.N(8, 400); i++ {
 		for _, rev := range []int{4, 3} {
 			for _, fail := range []string{"candidate-vanishes", "message-instead-of-upgrade", "upgrade-timeout"} {
@@ -761,4 +778,69 @@ func TestC07(t *testing.T) {
 			}
 		}
 	}
+}
+
+// runC07Stalled: the client has stopped reading and its connection is full, so the transport's
+// writer goroutine is blocked in the middle of a batch and the server's ping cannot even be
+// written.  The dead-peer timing must not depend on that: revision 4 - ping created at open+PI,
+// 'ping timeout' at exactly ping+PT; revision 3 - 'ping timeout' at exactly open+PI+PT.
+func runC07Stalled(rev int, transport string, PI, PT time.Duration, r *rep.Report) (key, msg string) {
+	rig.Bubble(r.T(), func() {
+		so := &config.ServerOptions{}
+		so.SetAllowEIO3(true)
+		so.SetTransports(types.NewSet("polling", "websocket", "webtransport"))
+		so.SetPingInterval(PI)
+		so.SetPingTimeout(PT)
+		w := rig.NewWorld(rig.Options{Server: so})
+		defer w.Finish()
+		cl, err := w.Connect(rig.ClientCfg{Rev: rev, Transport: transport, NoAutoPong: true})
+		rig.Wait()
+		sock := w.Socket(0)
+		if err != nil || sock == nil {
+			key, msg = "c07-handshake-failed", fmt.Sprint(err)
+			return
+		}
+		sid := sock.Id()
+		openAt := w.Tap.Of(sid, "connection")[0].At
+		var nc *fakenet.Conn
+		if cl.WS != nil {
+			nc, _ = cl.WS.UnderlyingConn().(*fakenet.Conn)
+		} else if cl.WTStream != nil {
+			nc = cl.WTStream.Conn
+		}
+		if nc == nil {
+			r.Inconclusive("stalled-peer lane: no in-memory connection to stall")
+			return
+		}
+		nc.LimitReceiveBuffer(1)
+		nc.StallReads(true)
+		sock.Send(types.NewStringBufferString("fill-0"), nil, nil)
+		sock.Send(types.NewStringBufferString("fill-1"), nil, nil)
+		sock.Send(types.NewStringBufferString("fill-2"), nil, nil)
+		time.Sleep(PI + PT + PT + time.Second)
+		rig.Wait()
+		cls := w.Tap.Of(sid, "close")
+		want := openAt + PI + PT
+		if len(cls) != 1 || cls[0].Str != "ping timeout" {
+			var rs []string
+			for _, e := range cls {
+				rs = append(rs, e.Str)
+			}
+			key, msg = "c07-no-timeout-at-deadline", fmt.Sprintf("v%d %s client that stopped reading (server writer blocked on a full connection), PI %v PT %v: close events %v by open+%v, want one 'ping timeout' at open+%v; session %s", rev, transport, PI, PT, rs, PI+2*PT+time.Second, PI+PT, sock.ReadyState())
+			return
+		}
+		if cls[0].At != want {
+			key, msg = "c07-timeout-at-wrong-time", fmt.Sprintf("v%d %s client that stopped reading (server writer blocked on a full connection): 'ping timeout' at open+%v, expected open+%v (PI %v, PT %v)", rev, transport, cls[0].At-openAt, PI+PT, PI, PT)
+			return
+		}
+		if rev == 4 {
+			if e, ok := w.Tap.Last(sid, "packetCreate", "ping:"); !ok || e.At != openAt+PI {
+				key, msg = "c07-ping-at-wrong-time", fmt.Sprintf("v4 %s client that stopped reading: ping created at open+%v (found %v), expected open+%v", transport, e.At-openAt, ok, PI)
+				return
+			}
+		}
+		nc.StallReads(false)
+		cl.Stop()
+	})
+	return
 }
